@@ -28,7 +28,7 @@ SECRETS = ["", "a", "b", "A", "a ", "aa", "é", "é", "a\x00", {"$": "bigstr", 
 # presented to challenge() only: text with a lone surrogate has no UTF-8 form, so it can be nobody's secret
 UNENCODABLE = ["hunter2\udcff", "\udcff", "a\ud800"]
 FORMATS = ["json", "yaml", "xml", "bson", "pickle"]
-ROUTES = ["attr", "late-declared-attr", "late-declared-load", "item-config-tree", "item-config-type-tree", "ctor", "default", "default-callable", "digest-default", "digest-exact-salt", "digest-long-salt", "load_tree", "document", "document-yaml", "document-xml", "list-assign", "list-append",
+ROUTES = ["attr", "validator-attr", "validator-list-item", "cmdline", "cmdline-nested", "late-declared-attr", "late-declared-load", "item-config-tree", "item-config-type-tree", "ctor", "default", "default-callable", "digest-default", "digest-exact-salt", "digest-long-salt", "load_tree", "document", "document-yaml", "document-xml", "list-assign", "list-append",
           "dict-default-item", "dict-factory-default-update", "list-default-append", "list-factory-default-iadd", "include-overrides-stored",
           "list-assign-dup", "tuple-assign-dup", "list-default-dup", "dict-assign-dup", "dict-item", "dict-setdefault", "dict-update", "dict-ior", "dict-assign", "list-insert", "list-setitem", "list-setslice", "list-extend", "list-iadd",
           "list-from-str-proxy", "list-extend-str-proxy", "list-iadd-any-proxy", "sub-document-xml"]
@@ -87,6 +87,36 @@ def _place(schema, route, p, alg):
     if route == "attr":
         cfg = schema(); cfg.pw = p
         return cfg, lambda c: c.pw
+    if route.startswith("validator-"):
+        # a user validator on the challenge field (it returns what it is given): it sees, and hands back, the hashed value
+        seen = []
+
+        def ident(cfg, v, seen=seen):
+            seen.append(type(v).__name__)
+            return v
+        s2 = cc.Schema()
+        s2.pw = cc.ChallengeField(alg, validator=ident)
+        s2.l = cc.ListField(cc.ChallengeField(alg, validator=ident))
+        cfg = s2()
+        if route == "validator-attr":
+            cfg.pw = p
+            return cfg, lambda c: c.pw
+        cfg.l = ["first-item-secret"]
+        cfg.l.append(p)
+        return cfg, lambda c: c.l[1]
+    if route.startswith("cmdline"):
+        # the secret arrives as a command-line option and is applied with the override helper
+        import contextlib, io
+        s2 = cc.Schema()
+        s2.pw = cc.ChallengeField(alg)
+        s2.auth.token = cc.ChallengeField(alg)
+        s2.auth.n = cc.IntField(default=1)
+        cfg = s2()
+        import argparse
+        # (the generated parser offers no option for a challenge field: the application's own parser has one)
+        ns = argparse.Namespace(pw=p) if route == "cmdline" else argparse.Namespace(**{"auth.token": p, "auth.n": 2})
+        cc.cmdline_args_override(cfg, ns)
+        return cfg, (lambda c: c.pw) if route == "cmdline" else (lambda c: c.auth.token)
     if route.startswith("late-declared"):
         # a dynamic configuration already holds an ad-hoc value under the key; the schema then declares the key as a challenge
         # field: from then on every write to the key is a secret
@@ -306,7 +336,7 @@ def _pairs(job, ctx):
     secrets = [V.dec(s) for s in SECRETS]
     only = job.get("only")
     for pi, p in enumerate(secrets):
-        if (route.startswith("document") or route.startswith("sub-document") or route.endswith("proxy") or route in ("default", "default-callable", "load_tree", "include-overrides-stored", "late-declared-load", "item-config-tree", "item-config-type-tree")) and not isinstance(p, str):  # trees and defaults are text
+        if (route.startswith("document") or route.startswith("sub-document") or route.endswith("proxy") or route in ("default", "default-callable", "load_tree", "include-overrides-stored", "late-declared-load", "item-config-tree", "item-config-type-tree", "cmdline", "cmdline-nested")) and not isinstance(p, str):  # trees and defaults are text
             ctx.skipped += 1
             continue
         if route.endswith("xml") and isinstance(p, str) and ("\x00" in p or not p.strip(" ") == p and False):
